@@ -33,6 +33,9 @@ fn panic_hook(info: &std::panic::PanicHookInfo<'_>) {
         .map(|l| format!("{}:{}", l.file(), l.line()))
         .unwrap_or_default();
     let thread = std::thread::current().name().unwrap_or("?").to_string();
+    if std::env::var("SIM_BACKTRACE").is_ok() {
+        eprintln!("{}", std::backtrace::Backtrace::force_capture());
+    }
     let in_mmtk = loc.contains("/repo/") || loc.starts_with("src/");
     let head: String = msg.chars().take(300).collect();
     if in_mmtk {
@@ -336,7 +339,8 @@ fn do_alloc(mid: usize, req: AllocReq) -> Option<(u64, usize)> {
     // `unreachable!("GC triggered in nogc")` by design, so such a program is illegal.
     let skip = with_world(|w| {
         !w.plan.collects
-            && req.opts.is_none()
+            && req.opts.map(|o| o.at_safepoint && !o.allow_overcommit).unwrap_or(true)
+            && size < w.spec.cfg.heap_bytes
             && (w.alloc_bytes as usize + size + (64 << 10)) * 3 > w.spec.cfg.heap_bytes
     });
     if skip {
